@@ -17,6 +17,7 @@ import GqlProofs.ValSpec.ValuesCorrectFinal
 import GqlProofs.Validate.OverlapSound
 import GqlProofs.Props.C18
 import GqlProofs.Validate.OverlapWitness
+import GqlProofs.Validate.OverlapFlatMain
 /-
   C08 — validation accepts exactly what the rules allow.
 
@@ -1640,3 +1641,29 @@ end C08
 #print axioms C08_UniqueOperationNames_iff
 #print axioms C08_UniqueVariableNames
 #print axioms C08_default_LoneAnonymousOperation
+
+/-! ## OverlappingFieldsCanBeMerged: completeness -/
+section C08
+open Gql Gql.Validate Gql.Validate.Rules
+
+/-- **stage (a)** — documents WITHOUT fragment spreads: OverlappingFieldsCanBeMerged reports nothing iff
+    §5.3.2 (`Spec.fieldSelectionMerging`) holds.  Hypotheses, each guaranteed by other rules / by loaded
+    schemas: the prerequisites under which §5.3.2 is judged (`Spec.mergingJudged`), well-parentedness,
+    leaf field selections (ScalarLeafs), the type in scope is determined at every selection node
+    (a closed schema), the type table is keyed by definition names, unique fragment names and
+    every fragment used (with no spread in the document: there are no fragment definitions). -/
+theorem C08_overlap_complete_flat (s : Schema) (d : QueryDoc)
+    (hflat : Spec.allSpreadNames d = [])
+    (hj : Spec.mergingJudged s d = true) (hwp : Spec.wellParented s d = true)
+    (hleaf : Spec.leafFieldSelections s d = true)
+    (hparents : ∀ t ∈ Spec.docSels s d, t.parent.isSome) (hkeys : KeysOK s)
+    (hu : Spec.fragmentNameUniqueness d = true) (hused : Spec.fragmentsMustBeUsed d = true) :
+    validate [overlappingFieldsCanBeMerged] s d = .ok [] ↔ Spec.fieldSelectionMerging s d = true := by
+  have hfs : Spec.fieldSelections s d = true := by
+    unfold Spec.mergingJudged at hj
+    simp only [Bool.and_eq_true] at hj
+    exact hj.1.2
+  exact overlap_flat_iff s d ⟨hwp, hfs, hleaf, hparents, hkeys⟩ hflat hj hu hused
+
+#print axioms C08_overlap_complete_flat
+end C08
